@@ -190,7 +190,13 @@ class Check:
             lib = open(os.path.join(REPO, "assert-struct-macros", "src", "lib.rs")).read()
             if not re.search(r"struct AssertStruct \{\s*value: syn::Expr,\s*pattern: Pattern,\s*\}", lib) or \
                not re.search(r"let assert = match syn::parse\(input\) \{\s*Ok\(assert\) => assert,\s*Err\(err\) => return TokenStream::from\(err\.to_compile_error\(\)\),\s*\};\s*(//[^\n]*\s*)*let expanded = expand::expand\(&assert\);", lib):
-                raise RuntimeError("assert-struct-macros/src/lib.rs no longer has the entry-point shape the in-process harness mirrors (struct AssertStruct / syn::parse -> expand::expand)")
+                # the in-process harness calls `syn::parse2::<AssertStruct>` and `expand::expand` itself: it does not run the proc-macro entry
+                # point, which has changed shape.  What the ties say is then about the parser and generator only - reported once, as a
+                # broken correspondence; everything compiled by rustc still goes through the real entry point.
+                if not getattr(self, "_entry_reported", False):
+                    self._entry_reported = True
+                    self.report("corr:entry-point-shape", "assert-struct-macros/src/lib.rs no longer has the entry-point shape the in-process harness mirrors (struct AssertStruct { value, pattern }; syn::parse(input) -> expand::expand(&assert)): the in-process ties no longer speak about the macro as invoked",
+                                dict(broken="correspondences T1 / T2 as statements about the macro's entry point (harness/inproc/src/main.rs mirrors it)"), no_input=True)
         # cargo decides freshness by mtime; a tree restored with old mtimes would leave a stale
         # binary.  Whenever the content hash of /repo differs from the one last built, force the
         # crates that come from /repo to be rebuilt.
